@@ -62,7 +62,7 @@ Definition eval_rewrite (old expected : bytes) (base : list token) (sg : subst)
   else if code_same && comments_same then
     (* every token retained in order, only white space / the placement of comments between
        tokens differs from gofmt: the renamed identifier was given no source position *)
-    {| v_known := true; v_model_ok := true; v_spec_ok := false; v_guard := true;
+    {| v_known := true; v_model_ok := true; v_spec_ok := false; v_guard := false;
        v_model := of_ns model_bytes; v_tag := "known:c10-rename-layout/" ++ rel |}
   else
     {| v_known := true; v_model_ok := false; v_spec_ok := false; v_guard := true;
